@@ -88,6 +88,8 @@ class TALFileHandler(FileHandler):
             self.entry.realencoding = self.entry.encoding
             self.entry.encoding = None
             self.entry.type = self.entry.guesstype()
+            # The size of the template is not the size of the expanded page.
+            self.entry.size = None
 
         return self.entry
 
